@@ -37,3 +37,5 @@ def check(ctx):
         # an attachment made through the handle on one thread and the span's finish on another travel in two queues: each
         # queue is read to its end in the cycle that reads it (a per-cycle cap lets the finish overtake the attachment)
         collector.rule_drain_keeps_live(ctx, c, "R9")
+    # attachments made through the local parent of a span with parents in a sampled and an unsampled trace are recorded
+    provrules.rule_scope_sampling(ctx, facts, "R10")
